@@ -6,7 +6,7 @@
 From Coq Require Import String List ZArith Bool.
 Require Import Blots.Num Blots.gen.Builtins Blots.Ast Blots.Value Blots.Outcome Blots.Binop
                Blots.Env Blots.Eval Blots.BuiltinsHof Blots.Program Blots.EvalInst.
-Require Blots.BuiltinsList Blots.BuiltinsAgg.
+Require Blots.BuiltinsList Blots.BuiltinsAgg Blots.BuiltinsText.
 Import ListNotations.
 
 Definition builtin_full (call : callback) (b : builtin) : list value -> store -> outcome value * store :=
@@ -37,6 +37,11 @@ Definition builtin_full (call : callback) (b : builtin) : list value -> store ->
   | B_flatten => pure_bi BuiltinsList.bi_flatten
   | B_zip => pure_bi BuiltinsList.bi_zip
   | B_chunk => pure_bi BuiltinsList.bi_chunk
+  | B_convert => pure_bi BuiltinsText.bi_convert
+  | B_round => pure_bi BuiltinsText.bi_round
+  | B_to_number => pure_bi BuiltinsText.bi_to_number
+  | B_to_string => pure_bi BuiltinsText.bi_to_string
+  | B_join => pure_bi BuiltinsText.bi_join_full
   | B_sort_by => BuiltinsList.bi_sort_by store call
   | B_group_by => BuiltinsList.bi_group_by store call
   | B_count_by => BuiltinsList.bi_count_by store call
